@@ -299,7 +299,7 @@ def gen_device(rng) -> dict:
         name = rng.choice(["A", "EDGE", "acl", "V4", "x-"]) + str(n + 1)
         if acls and rng.random() < 0.3:  # a name that has another ACL's name as a proper prefix
             name = rng.choice(acls)["name"] + rng.choice(["0", "_V2", "-b"])
-        if name in [a["name"] for a in acls]:
+        while name in [a["name"] for a in acls]:
             name += "z"
         acl_type = "standard" if platform == "ios" and rng.random() < 0.2 else "extended"
         entries = []
